@@ -77,3 +77,101 @@ Example C02_lists_ex :
   timeline_l_test PFifo es [] [] [2; 0; 9; 4] = true /\
   pops all_rep (qinit PFifo [mk_entry 3 1 KArray [1; 1] false] [] []) [20] = None.
 Proof. vm_compute. repeat split; reflexivity. Qed.
+
+From PV Require Import Queue.SpecXDur Queue.ProofsXDur.
+
+(* ======================================================================================
+   DECLARED DURATIONS (append(..., duration=d); Model.mk_entry_dur, e_dur <> e_len; Queue/SpecXDur.v).
+   wf_queue / wf_queue_l above require e_dur = e_len.  wf_queue_d / wf_queue_ld are the same conditions
+   WITHOUT that clause: the declared duration is arbitrary (longer or shorter than the waveform, zero,
+   negative).  erase_dur replaces every declared duration - in the data and in the log of generated
+   trials - by the waveform length.
+   ====================================================================================== *)
+
+(* pop_buffer commutes with duration erasure, in ANY state and for ANY repair setting ... *)
+Theorem C02_pop_buffer_duration_erasure : forall R q n,
+  pop_buffer R (erase_dur q) n =
+  match pop_buffer R q n with Some (q', out, ev) => Some (erase_dur q', out, ev) | None => None end.
+Proof. exact pop_buffer_erase. Qed.
+Print Assumptions C02_pop_buffer_duration_erasure.
+
+(* ... so a no-pause run from stimuli with arbitrary declared durations and the run from the same stimuli
+   with e_dur := e_len succeed together, with the same output and the same notifications, and end in states
+   that differ in the declared durations only (erase_observables in Queue/ProofsXDur.v: clock, flags, source,
+   pending delay, ordering, trial counters and the (t0, key, decrement) of every log entry are equal) *)
+Theorem C02_pops_duration_erasure : forall R p es ch pm ns,
+  pops R (qinit p (map norm_dur es) ch pm) ns =
+  match pops R (qinit p es ch pm) ns with Some (q, out, ev) => Some (erase_dur q, out, ev) | None => None end.
+Proof. exact pops_duration_erasure. Qed.
+Print Assumptions C02_pops_duration_erasure.
+
+(* What the declared duration DOES influence in a request (any state, any repair setting): nothing but the
+   duration recorded with each trial set up.  The erased state answers with the same output and notifications
+   and ends in the erased final state; the log grows by exactly one entry per 'added' notification (same key
+   and start, decrement = true) whose i_dur is the declared duration of its stimulus - the duration field of
+   the notification's info dict (dur_of, as enc_event_x encodes it); the declared durations never change. *)
+Theorem C02_duration_only_in_log : forall R q n q' out ev,
+  pop_buffer R q n = Some (q', out, ev) ->
+  pop_buffer R (erase_dur q) n = Some (erase_dur q', out, ev) /\
+  (exists new, q_generated q' = q_generated q ++ new /\
+               map (fun i => (i_key i, i_t0 i)) new = added_of ev /\
+               Forall (fun i => i_dur i = dur_of q (i_key i) /\ i_dec i = true /\
+                                enc_event_x q' (EAdded (i_key i) (i_t0 i)) = [1; i_key i; i_t0 i; i_dur i]) new) /\
+  (forall k, dur_of q' k = dur_of q k).
+Proof. exact duration_only_in_log. Qed.
+Print Assumptions C02_duration_only_in_log.
+
+(* C02_timeline, C02_chunk_invariant, C02_never_stuck and the _lists variants, statements otherwise
+   identical, for stimuli with ARBITRARY declared durations *)
+Theorem C02_timeline_any_duration : forall p es ch pm ns q out ev,
+  wf_queue_d p es = true -> forallb (fun n => 0 <=? n) ns = true ->
+  pops all_rep (qinit p es ch pm) ns = Some (q, out, ev) ->
+  out = render es (added_of ev) (sumZ ns) /\ q_samples q = sumZ ns /\ spacing_ok es (added_of ev) = true.
+Proof. exact timeline_any_duration. Qed.
+Print Assumptions C02_timeline_any_duration.
+
+Theorem C02_chunk_invariant_any_duration : forall p es ch pm pre a b q o0 e0 q1 o1 e1,
+  wf_queue_d p es = true -> forallb progress_entry es = true ->
+  forallb (fun n => 0 <=? n) (a :: b :: pre) = true ->
+  pops all_rep (qinit p es ch pm) pre = Some (q, o0, e0) ->
+  pop_buffer all_rep q (a + b) = Some (q1, o1, e1) ->
+  exists q2 o2 e2, pops all_rep q [a; b] = Some (q2, o2, e2) /\
+    o1 = o2 /\ added_of e1 = added_of e2 /\ q_samples q1 = q_samples q2 /\ q_empty q1 = q_empty q2 /\
+    map e_trials (q_data q1) = map e_trials (q_data q2).
+Proof. exact chunk_invariant_any_duration. Qed.
+Print Assumptions C02_chunk_invariant_any_duration.
+
+Theorem C02_never_stuck_any_duration : forall p es ch pm ns,
+  wf_queue_d p es = true -> forallb progress_entry es = true -> forallb (fun n => 0 <=? n) ns = true ->
+  match p with PRandom | PBlockedRandom => True | _ => pops all_rep (qinit p es ch pm) ns <> None end.
+Proof. exact never_stuck_any_duration. Qed.
+Print Assumptions C02_never_stuck_any_duration.
+
+Theorem C02_timeline_lists_any_duration : forall p es ch pm ns q out ev,
+  wf_queue_ld p es = true -> forallb (fun n => 0 <=? n) ns = true ->
+  pops all_rep (qinit p es ch pm) ns = Some (q, out, ev) ->
+  out = render es (added_of ev) (sumZ ns) /\ q_samples q = sumZ ns /\ spacing_ok_l es (added_of ev) = true.
+Proof. exact timeline_l_any_duration. Qed.
+Print Assumptions C02_timeline_lists_any_duration.
+
+Theorem C02_chunk_invariant_lists_any_duration : forall p es ch pm pre a b q o0 e0 q1 o1 e1,
+  wf_queue_ld p es = true -> forallb progress_entry es = true ->
+  forallb (fun n => 0 <=? n) (a :: b :: pre) = true ->
+  pops all_rep (qinit p es ch pm) pre = Some (q, o0, e0) ->
+  pop_buffer all_rep q (a + b) = Some (q1, o1, e1) ->
+  exists q2 o2 e2, pops all_rep q [a; b] = Some (q2, o2, e2) /\
+    o1 = o2 /\ added_of e1 = added_of e2 /\ q_samples q1 = q_samples q2 /\ q_empty q1 = q_empty q2 /\
+    map e_trials (q_data q1) = map e_trials (q_data q2).
+Proof. exact chunk_invariant_l_any_duration. Qed.
+Print Assumptions C02_chunk_invariant_lists_any_duration.
+
+(* declared durations 7 (> length 3), -4, 0: not well-formed for the theorems above the line, well-formed
+   here; the run notifies four trials and logs exactly the declared durations *)
+Example C02_any_duration_ex :
+  let es := [mk_entry_dur 2 3 KArray [1] true 7; mk_entry_dur 1 2 KGen [0] true (-4); mk_entry_dur 1 1 KArray [2] true 0] in
+  wf_queue_d PFifo es = true /\ wf_queue PFifo es = false /\ forallb progress_entry es = true /\
+  match pops all_rep (qinit PFifo es [] []) [2; 5; 0; 9] with
+  | Some (q, _, ev) => eqb_list eqb_pairZ (added_of ev) [(0, 0); (0, 4); (1, 8); (2, 10)]
+                       && eqb_listZ (map i_dur (q_generated q)) [7; 7; -4; 0]
+  | None => false end = true.
+Proof. vm_compute. repeat split; reflexivity. Qed.
